@@ -1,0 +1,20 @@
+//go:build verif
+
+// Contracts for package dialer, checked by /verif (bfvc). Comment-only.
+package dialer
+
+// ---- C05 ----
+// What every transport dialer owes its callers: success with a link means a link to the peer asked for.
+//@ iface TransportDialer.DialPeer ensures err == nil && lnk != nil && peerID != "" ==> lnk.GetRemotePeer() == peerID
+
+//@ func NewDialer
+//@   noframe
+//@   ensures ret != nil && ret.peerID == peerID && ret.address == address && ret.tptDialer == tptDialer
+//@   fresh ret
+
+// Execute retries until DialPeer succeeds: the link it returns is a link to the dialer's peer.
+//@ func (*Dialer).Execute
+//@   noframe
+//@   nosweep nil-deref
+//@   loop 1 invariant d.peerID == old(d.peerID)
+//@   ensures ret1 == nil && ret0 != nil && old(d.peerID) != "" ==> ret0.GetRemotePeer() == old(d.peerID)
